@@ -47,12 +47,14 @@ type fkey struct {
 
 // rec is one observed edit-log commit in canonical form.
 type rec struct {
-	kind  byte // 'F' flush, 'T' merge+references, 'S' delete rollup entries, 'D' delete references, '?' other
-	iv    int64
-	keys  []fkey   // T, D: source files; F: the flushed file
-	pairs []string // T: target store dir, family name
-	trip  [][3]int64 // S: (h, file, iv); F: (iv)
-	text  string
+	kind     byte // 'F' flush, 'T' merge+references, 'S' delete rollup entries, 'D' delete references, '?' other
+	iv       int64
+	keys     []fkey     // T, D: source files; F: the flushed file
+	pairs    []string   // T: target store dir, family name
+	trip     [][3]int64 // S: (h, file, iv); F: (iv)
+	text     string
+	newFiles []int64 // file numbers added by the record (T: the rolled-up output files)
+	srcH     int     // source family (hour) the record belongs to; -1 unknown
 }
 
 type env struct {
@@ -84,6 +86,10 @@ type env struct {
 	history []rec // committed records that survived (crash images cut the tail)
 
 	failKey string // oracle key for aggregate mismatches (the witness case uses its own key)
+	// unguarded: the interval pair is outside the guard of slot_placement (the class of the recorded
+	// finding); the target is then compared with the RECORDED behaviour of the code (expectedCurrent)
+	unguarded bool
+	big       bool // concurrent bulk case: file contents are not sent to the model
 }
 
 func (e *env) srcStorePath() string {
@@ -218,6 +224,16 @@ func (e *env) canon(storePath, family string, logs []version.Log) rec {
 	// remember where a T record was committed: target store dir / family name
 	if r.kind == 'T' {
 		r.pairs = []string{filepath.Base(storePath), family}
+	}
+	r.newFiles = newFiles
+	r.srcH = -1
+	switch {
+	case r.kind == 'S' || r.kind == 'F':
+		if h, err := strconv.Atoi(family); err == nil {
+			r.srcH = h
+		}
+	case len(r.keys) > 0:
+		r.srcH = r.keys[0].h
 	}
 	return r
 }
@@ -443,6 +459,9 @@ func (e *env) opFlush(h int, fd fileData) error {
 	for i := range fd {
 		toks[i] = fd[i].token()
 	}
+	if e.big {
+		toks = nil
+	}
 	ne := 0
 	if len(fd) > 0 {
 		ne = 1
@@ -527,6 +546,7 @@ func (e *env) opRollup(h int, cut int, viaStore bool) error {
 		e.c.Branch("rec-" + string(r.kind))
 		if r.kind == 'T' {
 			e.checkTargetLocation(r)
+			e.checkBlockRanges(r)
 		}
 	}
 	rs := strings.Join(texts, ";")
@@ -746,6 +766,10 @@ func (e *env) expected(tgt int64) map[string]map[viewKey]*viewVal {
 }
 
 func (e *env) checkAggregates(tgt int64, got map[string]map[viewKey]*viewVal) {
+	if e.unguarded {
+		e.checkRecorded(tgt, got)
+		return
+	}
 	want := e.expected(tgt)
 	bad, total := 0, 0
 	first := ""
@@ -1003,6 +1027,13 @@ func (e *env) storeCase() error {
 			ys = append(ys, t)
 		}
 	}
+	if e.unguarded {
+		// non-ladder targets: accepted by the option, outside the guard (class of the recorded finding)
+		e.src = []int64{10 * sec, 10 * sec, 30 * sec, min_, 2 * min_}[rng.Intn(5)]
+		ms = []int64{7 * min_, 45 * min_, 25 * min_, 59 * min_, 35 * min_}
+		ys = []int64{90 * min_, 150 * min_, 210 * min_}
+		c.Branch("unguarded-store-case")
+	}
 	switch rng.Intn(4) {
 	case 0:
 		e.tgts = []int64{ms[rng.Intn(len(ms))]}
@@ -1171,9 +1202,18 @@ func (a area) Run(c *core.Ctx) error {
 					c.Fail("panic", fmt.Sprintf("case %d panicked: %v", i, r))
 				}
 			}()
-			if i == 0 {
+			switch {
+			case i == 0:
 				err = e.witnessCase()
-			} else {
+			case i == 2 || i%400 == 2:
+				err = e.concCase(true)
+			case i%40 == 6:
+				err = e.concCase(false)
+			case i%8 == 3:
+				e.unguarded = true
+				e.failKey = "unguarded-pair-differs-from-recorded-behaviour"
+				err = e.storeCase()
+			default:
 				err = e.storeCase()
 			}
 		}()
